@@ -146,6 +146,13 @@ fn fam_counter(ctx: &mut Context, rng: &mut Rng) -> TransitionSystem {
         };
         sys.bad_states.push(b);
     }
+    if rng.chance(1, 6) {
+        // a constraint on the state alone: the value t is forbidden, executions stop before it
+        let t = rng.range(1, max.min(12));
+        let tl = lit(ctx, w, t);
+        let c_ne = ctx.distinct(c, tl);
+        sys.constraints.push(c_ne);
+    }
     if let (Some(e), true) = (en, rng.chance(1, 4)) {
         // constraint: enable only while below a limit
         let lim = rng.range(1, max);
@@ -201,7 +208,7 @@ fn fam_shift(ctx: &mut Context, rng: &mut Rng) -> TransitionSystem {
 /// two registers updated in lock step; the relation between them is the inductive invariant
 fn fam_lockstep(ctx: &mut Context, rng: &mut Rng) -> TransitionSystem {
     let mut sys = TransitionSystem::new("lockstep".to_string());
-    let w = rng.range(2, 4) as WidthInt;
+    let w = rng.range(2, 3) as WidthInt;
     let max = (1u64 << w) - 1;
     let a = ctx.bv_symbol("a", w);
     let b = ctx.bv_symbol("b", w);
@@ -276,7 +283,7 @@ fn fam_lockstep(ctx: &mut Context, rng: &mut Rng) -> TransitionSystem {
 /// one-hot ring / rotating register
 fn fam_ring(ctx: &mut Context, rng: &mut Rng) -> TransitionSystem {
     let mut sys = TransitionSystem::new("ring".to_string());
-    let w = rng.range(3, 7) as WidthInt;
+    let w = rng.range(3, 5) as WidthInt;
     let max = (1u64 << w) - 1;
     let r = ctx.bv_symbol("r", w);
     let hi = ctx.slice(r, w - 1, w - 1);
@@ -373,6 +380,13 @@ fn fam_fsm(ctx: &mut Context, rng: &mut Rng) -> TransitionSystem {
         let b = ctx.equal(s, tl);
         let b = if rng.chance(1, 4) { ctx.and(b, x) } else { b };
         sys.bad_states.push(b);
+    }
+    if rng.chance(1, 6) {
+        // a forbidden state: executions cannot pass through it
+        let t = perm[rng.range(1, reach_n - 1) as usize];
+        let tl = lit(ctx, w, t);
+        let c = ctx.distinct(s, tl);
+        sys.constraints.push(c);
     }
     if rng.chance(1, 4) {
         // constraint: input low in one particular state
@@ -768,6 +782,8 @@ fn parent(args: &Args) {
     // queries grows with the number of states and the 60 s watchdog would measure speed, not hangs)
     let full_bits = args.get_u64("full-bits", 4) as u32;
     let small_share = args.get_u64("small-share", 70);
+    // cvc5's unsat cores generalise poorly (1 933 queries on a 32-state system): cvc5 only up to cvc5-bits
+    let cvc5_bits = args.get_u64("cvc5-bits", 4) as u32;
     let mut jobs: Vec<Job> = vec![];
     let mut distinct_sys = HashSet::new();
 
@@ -825,11 +841,19 @@ fn parent(args: &Args) {
                 continue;
             }
         }
-        if !special {
+        if special {
+            // the structural families together take at most 15% of the systems
+            let nsp = *n_by_kind.get("special").unwrap_or(&0);
+            if nsp >= (want * 15) / 100 + 1 {
+                stats.inc("rejected_by_special_share");
+                continue;
+            }
+        }
+        {
             let n = *n_by_kind.get(kind).unwrap_or(&0);
             let cap = match kind {
-                "unsafe" => (want * 45) / 100 + 1,
-                "safe-trivial" => (want * 15) / 100 + 1,
+                "unsafe" => (want * 40) / 100 + 1,
+                "safe-trivial" => (want * 12) / 100 + 1,
                 _ => want,
             };
             if n >= cap {
@@ -841,6 +865,20 @@ fn parent(args: &Args) {
                     stats.inc("rejected_too_deep");
                     continue;
                 }
+                // spread the depths: no depth bucket may take more than a quarter of the unsafe share
+                let b: &'static str = match d {
+                    0 => "depth0",
+                    1 => "depth1",
+                    2..=3 => "depth2-3",
+                    4..=6 => "depth4-6",
+                    _ => "depth7-14",
+                };
+                let nb = *n_by_kind.get(b).unwrap_or(&0);
+                if nb >= cap / 4 + 1 {
+                    stats.inc("rejected_by_depth_steering");
+                    continue;
+                }
+                *n_by_kind.entry(b).or_insert(0) += 1;
             }
         }
         let sys_text = dump_sys(&ctx, &sys);
@@ -849,6 +887,9 @@ fn parent(args: &Args) {
             continue;
         }
         *n_by_kind.entry(kind).or_insert(0) += 1;
+        if special {
+            *n_by_kind.entry("special").or_insert(0) += 1;
+        }
         let label = class.label();
         stats.bump("family", fam);
         stats.bump("class", &label);
@@ -866,6 +907,9 @@ fn parent(args: &Args) {
             if !full && !(cfg.solver == "z3" && cfg.gen_on) {
                 continue;
             }
+            if cfg.solver == "cvc5" && class.state_bits > cvc5_bits {
+                continue;
+            }
             jobs.push(Job { id: format!("{produced}.{k}"), family: fam.to_string(), class: label.clone(), sys_text: sys_text.clone(), cfg: cfg.clone() });
         }
         produced += 1;
@@ -873,7 +917,20 @@ fn parent(args: &Args) {
     stats.add("systems", distinct_sys.len() as u64);
 
     // run
-    let results = run_jobs(&jobs, jobs_n, watchdog);
+    let mut results = run_jobs(&jobs, jobs_n, watchdog);
+    // A run that hit the watchdog while this harness (and whatever else shares the machine) was
+    // running many solvers in parallel is repeated once, alone, under the same watchdog: the
+    // watchdog is meant to catch hangs, not a loaded machine.  A genuine hang times out again.
+    for k in 0..jobs.len() {
+        if results[k].kind == "timeout" {
+            stats.inc("timeouts_in_parallel_phase");
+            let again = run_one(&jobs[k], watchdog);
+            if again.kind != "timeout" {
+                stats.inc("timeouts_gone_when_rerun_alone");
+                results[k] = again;
+            }
+        }
+    }
     let mut out = std::io::BufWriter::new(std::fs::File::create(&args.out).expect("out file"));
     let mut distinct = HashSet::new();
     let mut script_hashes: HashMap<String, HashSet<String>> = HashMap::new();
